@@ -19,7 +19,8 @@ without-registry arm and raises IllDefinedUnitSystem before the system is regist
 get_base_equivalent / in_base every call that can raise MKSCGSConversionError or MissingMKSCurrent is wrapped so that the
 caller sees UnitsNotReducible, and item access raises MissingMKSCurrent when the system has no current unit; (R4) the unit
 synthesised for a derived dimension is the product of the system's base units with the dimension's own exponents, and the
-memoised expression and the returned unit come from the same string."""
+memoised expression and the returned unit come from the same string.
+(R3, extended) _sanitize_unit_system(None, obj) is decided over closed abstract records of the classes actually passed (array, Unit, None; attribute inventories read from the class bodies): arrays and units resolve to their registry's system, None to mks; the base-equivalent unit is re-created in the unit's own registry; (R5) the CGS<->SI pairing table is closed under reversal with reciprocal factors (shared with C03-R4)."""
 LEVEL_NOTE = """Undecided: idempotence, round trip and 'atoms are a subset of the system's units' for arbitrary compound inputs
 (depend on sympy's factoring of dimension expressions) and the numerical conversion factors. Delegation of in_cgs/in_mks/
 get_*_equivalent/convert_to_* is decided under C03-R1."""
